@@ -26,7 +26,7 @@ EXTENDS ConnP
 
 CONSTANTS CW0, SW0, OCW0, OSW0, MFS0, MAXS,   \* connection parameters
           SidsUsed, ESs, CKinds, Reqs, Trailers, DataLens, Pads, WuIncs, IwsVals, MfsVals, RstCodes,
-          CLs, HOps, ReadLens, WriteLens, N400C, N400T, MaxSteps, MaxData, MaxHdrs
+          CLs, HOps, ReadLens, WriteLens, WRN, N400C, N400T, MaxSteps, MaxData, MaxHdrs
 
 K0 == [cw0 |-> CW0, sw0 |-> SW0, ocw0 |-> OCW0, osw0 |-> OSW0, mfs0 |-> MFS0, maxs |-> MAXS]
 
@@ -378,6 +378,28 @@ RaceReadRst(s, k, c, noteFirst) ==
   /\ UNCHANGED <<maxId, clM, bodyM, bclosed, outC, outS, iwsM, mfsM, needAck, hk, hsent, hret, sent,
                  mineM, tag, ndata, nhdrs>>
 
+\* The client has stopped reading; the handler writes WRN octets without flushing and returns:
+\* HEADERS goes into the write buffer, the final DATA frame (END_STREAM) blocks in the writer
+\* goroutine.  The client's RST_STREAM for the stream is processed while that frame is in flight
+\* (closeStream); then the client reads again, the write completes and wroteFrame finds the
+\* stream already closed.  On the wire: HEADERS, DATA(END_STREAM) arrive after the RST_STREAM.
+WRaceRetRst(s, c) ==
+  LET ehc == [E0 EXCEPT !.ev = "hc", !.s = s, !.op = "wret", !.n = WRN]
+      erst == [E0 EXCEPT !.ev = "c", !.k = "RST", !.s = s, !.code = c, !.op = "inflight"]
+      fh == [Fr("HEADERS", s) EXCEPT !.code = 200]
+      fd == [Fr("DATA", s) EXCEPT !.n = WRN, !.es = TRUE, !.first = Pat(sent[s])]
+      p1 == PClient(PHcmd(p, ehc), erst)
+      p2 == IF hsent[s] THEN p1 ELSE PServer(p1, fh) IN
+  /\ Stimulus /\ Want("WRACE") /\ "WRACE" \in CKinds
+  /\ hs[s] = "idle" /\ InMap(s) /\ WRN <= Min(Min(outS[s], outC), mfsM) /\ sq[s] = <<>>
+  /\ p' = PServer(p2, fd)
+  /\ After([E0 EXCEPT !.ev = "wrace", !.k = "WRACE", !.s = s, !.n = WRN, !.code = c]) /\ UNCHANGED holdM
+  /\ outS' = [outS EXCEPT ![s] = @ - WRN] /\ outC' = outC - WRN
+  /\ sent' = [sent EXCEPT ![s] = @ + WRN]
+  /\ hsent' = [hsent EXCEPT ![s] = TRUE] /\ hret' = [hret EXCEPT ![s] = TRUE]
+  /\ Apply([CloseStream(Cur, s) EXCEPT !.hs[s] = "gone"])
+  /\ UNCHANGED <<maxId, inS, clM, bodyM, bclosed, iwsM, mfsM, needAck, hk, mineM, tag, ndata, nhdrs>>
+
 Running == turn = "run" /\ conn = "up"
 
 HStart(s) ==
@@ -496,14 +518,20 @@ Quiesce ==
                  ga, needGA, conn, hs, hk, hprog, hsent, hret, sent, mineM, tag, nstep, ndata, nhdrs,
                  holdM, want>>
 
+\* boundary-directed DATA lengths ("BOUND" in CKinds): exactly what the windows of an open stream
+\* still allow, one octet more than that, and one octet more than the connection window
+Boundary(s) == IF "BOUND" \in CKinds /\ st[s] = "open"
+               THEN {x \in {Min(inS[s], inC), Min(inS[s], inC) + 1, inC + 1} : x > 0} ELSE {}
+
 StimNext ==
   \/ \E s \in SidsUsed, r \in Reqs, es \in ESs, cl \in CLs :
         /\ (cl >= 0 => r = "post" /\ ~es)
         /\ ClientHeaders(s, r, es, cl)
   \/ \E s \in SidsUsed, r \in Trailers, es \in ESs : InMap(s) /\ ClientHeaders(s, r, es, -1)
-  \/ \E s \in SidsUsed, L \in DataLens, pad \in Pads, es \in ESs : ClientData(s, L, pad, es)
+  \/ \E s \in SidsUsed : \E L \in DataLens \cup Boundary(s), pad \in Pads, es \in ESs : ClientData(s, L, pad, es)
   \/ \E s \in SidsUsed, c \in RstCodes : ClientRst(s, c)
   \/ \E s \in SidsUsed, k \in ReadLens, c \in RstCodes, nf \in BOOLEAN : RaceReadRst(s, k, c, nf)
+  \/ \E s \in SidsUsed, c \in RstCodes : WRaceRetRst(s, c)
   \/ \E s \in SidsUsed \cup {0}, inc \in WuIncs : ClientWu(s, inc)
   \/ \E iws \in IwsVals, mfs \in MfsVals : (iws # -1 \/ mfs # -1) /\ ClientSettings(iws, mfs)
   \/ ClientPing
